@@ -1,7 +1,7 @@
 // E2 harness for C13: pika::thread / pika::jthread join, detach, exit callbacks, interruption.
 // usage: e2_join <seed> <perturb_per_1024> <prog> <size> [pika options...]
 //   prog: mixed | basic | usercb | twojoin | interrupt | jthread | nested | errors | moves | jtmove | movejoin |
-//         handles | mixed2 | dtorterm (negative) | joinintr (directed, finding) | yieldintr (finding)
+//         handles | jtswap | mixed2 | dtorterm (negative) | joinintr (directed, finding) | yieldintr (finding)
 // The real runtime runs generated scenarios; every instrumented operation (hooks `jn.* jt.* ec.*
 // ip.*` in thread.cpp / thread.hpp / jthread.hpp / thread_data.{hpp,cpp}) is appended to the exact
 // E2 log.  Prints: log lines, `monitor <text>` lines (violations seen from observables only), `stat`
@@ -14,6 +14,8 @@
 #include <pika/runtime/runtime.hpp>
 #include <pika/semaphore.hpp>
 #include <pika/stop_token.hpp>
+#include <pika/condition_variable.hpp>
+#include <pika/mutex.hpp>
 #include <pika/thread.hpp>
 #include <pika/threading/jthread.hpp>
 #include <pika/threading_base/thread_helpers.hpp>
@@ -623,6 +625,66 @@ static void sc_jtmove(std::uint64_t seed)
     stat("jtmove");
 }
 
+// two RUNNING jthreads are swapped, then one handle is destroyed while the other lives: the destructor must stop and join the
+// thread the handle represents NOW, and leave the partner's thread alone (the bodies block in a stop-token wait; a destructor
+// that stops the wrong thread leaves the joined one blocked: the state-based hang verdict of this harness reports it)
+static void sc_jtswap(std::uint64_t seed)
+{
+    rng r{seed};
+    struct side
+    {
+        std::atomic<int> saw{0};       // 1 = saw stop_requested, 2 = gave up
+        std::atomic<int> finished{0};
+        std::atomic<int> started{0};
+    };
+    auto A = std::make_shared<side>();
+    auto B = std::make_shared<side>();
+    auto body = [](std::shared_ptr<side> s) {
+        return [s](pika::stop_token tok) {
+            activity act;
+            s->started.store(1);
+            // block (no polling: every yield is an interruption point and would flood the log) until stop is requested
+            pika::mutex m;
+            pika::condition_variable_any cv;
+            std::unique_lock<pika::mutex> lk(m);
+            cv.wait(lk, tok, [] { return false; });
+            s->saw.store(tok.stop_requested() ? 1 : 2);
+            s->finished.store(1);
+        };
+    };
+    int how = int(r.below(3));
+    {
+        pika::jthread b(body(B));
+        {
+            pika::jthread a(body(A));
+            while (!A->started.load() || !B->started.load()) pika::this_thread::yield();
+            yields(int(r.below(3)));
+            if (how == 0) a.swap(b);
+            else if (how == 1)
+            {
+                using std::swap;
+                swap(a, b);
+            }
+            else
+            {
+                // swap-and-pop idiom on a container of handles
+                std::vector<pika::jthread> v;
+                v.push_back(std::move(a));
+                v.push_back(std::move(b));
+                using std::swap;
+                swap(v[0], v[1]);
+                a = std::move(v[0]);
+                b = std::move(v[1]);
+            }
+            // a now represents B's thread, b represents A's thread
+        }    // ~a: must stop and join B's thread only
+        if (B->finished.load() != 1) monitor("jtswap: destructor of a swapped jthread returned before the thread it represents finished");
+        if (A->saw.load() == 1) monitor("jtswap: destroying a swapped jthread requested stop on its partner's thread");
+    }    // ~b: stops and joins A's thread
+    if (A->finished.load() != 1) monitor("jtswap: destructor of the second jthread returned before its thread finished");
+    stat("jtswap");
+}
+
 // a handle is moved away by another task while a joiner is (possibly) suspended in join on it
 static void sc_movejoin(std::uint64_t seed)
 {
@@ -740,7 +802,8 @@ static void scenario(std::string const& prog, std::uint64_t seed)
     else if (prog == "moves") k = 7;
     else if (prog == "jtmove") k = 8;
     else if (prog == "movejoin") k = 9;
-    else if (prog == "handles") k = 7 + int(r.below(3));
+    else if (prog == "jtswap") k = 12;
+    else if (prog == "handles") { k = 7 + int(r.below(4)); if (k == 10) k = 12; }
     else if (prog == "mixed2") k = int(r.below(10));
     else if (prog == "dtorterm") k = 10;
     else if (prog == "joinintr") k = 11;
@@ -759,6 +822,7 @@ static void scenario(std::string const& prog, std::uint64_t seed)
     case 9: sc_movejoin(s); break;
     case 10: sc_dtorterm(s); break;
     case 11: sc_joinintr(s); break;
+    case 12: sc_jtswap(s); break;
     default: sc_jthread(s); break;
     }
 }
